@@ -61,6 +61,16 @@ class ModuleFacts:
                     ds = ast.unparse(d)
                     if "cache" in ds:
                         self.cached_funcs[node.name] = ds
+        # cached methods of classes (static / class / instance methods): a cache on a class is as process-wide as one on the module
+        self.cached_methods: Dict[str, Tuple[ast.FunctionDef, str]] = {}
+        for cls_node in ast.walk(self.tree):
+            if isinstance(cls_node, ast.ClassDef):
+                for node in cls_node.body:
+                    if isinstance(node, ast.FunctionDef):
+                        for d in node.decorator_list:
+                            ds = ast.unparse(d)
+                            if "cache" in ds and "cached_property" not in ds:
+                                self.cached_methods[f"{cls_node.name}.{node.name}"] = (node, ds)
 
     def functions(self):
         for node in ast.walk(self.tree):
@@ -111,6 +121,28 @@ def is_value_pure(fn: ast.FunctionDef, own_cache: Set[str] = frozenset()) -> boo
                     return False
             else:
                 return False
+    return True
+
+
+def key_insensitive(fn: ast.FunctionDef, deco: str) -> bool:
+    """A memo table looks its arguments up with == / hash, under which 1, True and 1.0 are one key.  A cached function whose result shows
+    the TYPE or spelling of an argument (it formats it: f-string, str(), repr(), format(), %) is safe only if every parameter is annotated
+    `str` (strings equal only strings) or the cache is `typed=True`."""
+    if "typed=True" in deco.replace(" ", ""):
+        return True
+    params = [a for a in fn.args.args + fn.args.kwonlyargs if a.arg not in ("self", "cls")]
+    if all(a.annotation is not None and ast.unparse(a.annotation) in ("str", "'str'") for a in params):
+        return True
+    names = {a.arg for a in params}
+    for node in ast.walk(fn):
+        if isinstance(node, ast.FormattedValue) and any(isinstance(x, ast.Name) and x.id in names for x in ast.walk(node.value)):
+            return False
+        if isinstance(node, ast.Call) and isinstance(node.func, ast.Name) and node.func.id in ("str", "repr", "format", "type") and any(isinstance(x, ast.Name) and x.id in names for a in node.args for x in ast.walk(a)):
+            return False
+        if isinstance(node, ast.BinOp) and isinstance(node.op, ast.Mod) and isinstance(node.left, ast.Constant) and isinstance(node.left.value, str):
+            return False
+        if isinstance(node, ast.Call) and isinstance(node.func, ast.Attribute) and node.func.attr == "format":
+            return False
     return True
 
 
@@ -227,9 +259,14 @@ def main(argv: List[str]) -> int:
                 ob(allowed, f"frame:{mod.rel.split('/')[-1]}:{fn.name}:{name}", f"{mod.rel.split('/')[-1]}::{fn.name} {how} module-level `{name}`: state shared by all converters (and threads) is mutated outside the once-only resolution", function=fn.name, name=name)
             if not ws:
                 ob(True, "", "")
+        for qn, (mdef, deco) in mod.cached_methods.items():
+            pure = is_value_pure(mdef) and key_insensitive(mdef, deco)
+            if pure:
+                run.notes.append(f"{mod.rel.split('/')[-1]}::{qn} is cached ({deco}) but value-pure and insensitive to the type of its arguments")
+            ob(pure, f"frame:{mod.rel.split('/')[-1]}:{qn}:cache", f"{mod.rel.split('/')[-1]}::{qn} is decorated with {deco}: its results are shared process-wide" + ("" if not is_value_pure(mdef) else "; the memo key conflates 1 / True / 1.0 while the result shows which one was passed, so an earlier call with an equal value of another type changes what a later call returns"))
         for name, deco in mod.cached_funcs.items():
             fdef = next((f_ for f_ in mod.tree.body if isinstance(f_, ast.FunctionDef) and f_.name == name), None)
-            if fdef is not None and is_value_pure(fdef):
+            if fdef is not None and is_value_pure(fdef) and key_insensitive(fdef, deco):
                 ob(True, "", "")
                 run.notes.append(f"{mod.rel.split('/')[-1]}::{name} is cached ({deco}) but value-pure (result computed from its arguments only): invisible to converters")
                 continue
